@@ -7,6 +7,7 @@ same outcome class and same table of generated methods).  Here: the rule order t
 rejection / acceptance lemmas of the statement, for all types of the given shapes.
 -/
 import Gv.Model.Gen
+import Gv.Proofs.GenFragment
 
 namespace Gv.Props.C03
 open Gv Gv.Gen
@@ -157,5 +158,193 @@ end
 theorem C03_error_emits_nothing (c : Converter) (ds : List Declared) (d : Diag) (h : generate c ds = .error d) :
     ∀ ms, generate c ds ≠ .ok ms := by
   intro ms h2; rw [h] at h2; cases h2
+
+/-! ### ok ⇔ Convertible, at ALL depths, on the fragment F of unnamed struct-free types
+
+    F ::= basic k | *F | []F | [n]F | map[F]F                     (`Gv.Spec.inF`)
+
+`Gv.Spec.Convertible z` is the documented rule set as an inductive predicate (one constructor per rule, no rule order),
+`Gv.Spec.convertibleB` its decision procedure, `Gv.Gen.genF` the reference generator (the plan or the first diagnostic,
+by recursion on the pair of types).  Hypotheses ("plain" situation): no extend function; no declared or generated
+non-update method whose signature lies in F (`plainMethods`); `useUnderlyingTypeMethods` and `skipCopySameType` off;
+`z` = `useZeroValueOnPointerInconsistency`; no pending `default` constructor.  Enum detection may be on or off (unnamed
+types are never enums, C08).  The fuel bound is explicit: two units per type constructor of the pair. -/
+
+open Gv.Spec in
+/-- **C03 on F, all depths.**  For every pair of F-types, every mode (Build / Assign), every state and path:
+ 1. generation of the position succeeds iff the documented rules cover the pair (`Convertible`), iff `convertibleB`;
+ 2. on success the generator state is UNCHANGED (no method created, none marked dirty, nothing seen), the plan is exactly
+    the reference plan `genF`, and – for alias-free kinds and no array directly inside a list – the plan passes the plan
+    checker of C02 for EVERY program (so `C02_composite` applies to it: L-B on F);
+ 3. otherwise it fails with a type-mismatch diagnostic (never out of fuel, never another diagnostic). -/
+theorem C03_iff_unnamed_fragment (c : Converter) (cx : Ctx) (st : GState) (z : Bool) (s t : Ty) (path : List PathElem)
+    (fuel : Nat) (mode : Mode) (pp : Bool)
+    (hs : inF s = true) (ht : inF t = true)
+    (hfuel : 2 * (tySize s + tySize t) ≤ fuel)
+    (hext : c.extend = []) (hms : plainMethods st.methods = true)
+    (hu : cx.cfg.common.useUnderlying = false) (hsk : cx.cfg.common.skipCopySameType = false)
+    (hz : cx.cfg.common.useZeroValue = z) (hc : st.useCtor = false) :
+    ((∃ plan st', conv c fuel cx mode pp s t path st = .ok (plan, st')) ↔ Convertible z s t) ∧
+    (Convertible z s t ↔ convertibleB z s t = true) ∧
+    (∀ plan st', conv c fuel cx mode pp s t path st = .ok (plan, st') →
+        st' = st ∧ genF z (asgOf mode) s t = .ok plan ∧
+        (aliasFree s = true → aliasFree t = true → arrayElemFree (asgOf mode) s = true →
+          ∀ p : Eval.Program, PlanCheck.checkTy p plan s t = true)) ∧
+    (¬ Convertible z s t →
+        ∃ d, conv c fuel cx mode pp s t path st = .error d ∧ (d = .typeMismatch ∨ d = .typeMismatchPtr)) := by
+  have hsim := conv_fragment c cx st z s t path fuel mode pp hs ht hfuel hext (plainMethods_upTo _ _ hms) hu hsk hz hc
+  rw [hsim]
+  refine ⟨?_, (convertibleB_iff z s t hs ht).symm, ?_, ?_⟩
+  · rw [← genF_ok_iff z (asgOf mode) s t]
+    constructor
+    · rintro ⟨plan, st', h⟩
+      cases hg : genF z (asgOf mode) s t with
+      | ok q => exact ⟨q, rfl⟩
+      | error d => rw [hg] at h; cases h
+    · rintro ⟨q, hq⟩; exact ⟨q, st, by rw [hq]; rfl⟩
+  · intro plan st' h
+    cases hg : genF z (asgOf mode) s t with
+    | error d => rw [hg] at h; cases h
+    | ok q =>
+      rw [hg] at h
+      obtain ⟨rfl, rfl⟩ : q = plan ∧ st = st' := by simpa [ret] using h
+      exact ⟨rfl, rfl, fun ha1 ha2 ha3 p => genF_checked p z (asgOf mode) s t q hg hs ht ha1 ha2 ha3⟩
+  · intro hn
+    cases hg : genF z (asgOf mode) s t with
+    | ok q => exact absurd ((genF_ok_iff z (asgOf mode) s t).mp ⟨q, hg⟩) hn
+    | error d => exact ⟨d, rfl, genF_error z (asgOf mode) s t d hg⟩
+
+open Gv.Spec in
+/-- the same at the entry of a METHOD BODY (`buildNoLookup` on the method's own signature, as `buildMethod` calls it): the
+method table may contain the method being built – only non-update methods with a strictly smaller F-signature are excluded -/
+theorem C03_iff_unnamed_fragment_method (c : Converter) (cx : Ctx) (st : GState) (z : Bool) (s t : Ty) (path : List PathElem)
+    (fuel : Nat) (mode : Mode) (pp : Bool)
+    (hs : inF s = true) (ht : inF t = true)
+    (hfuel : 2 * (tySize s + tySize t) ≤ fuel)
+    (hext : c.extend = []) (hms : plainMethodsUpTo (tySize s + tySize t - 1) st.methods = true)
+    (hu : cx.cfg.common.useUnderlying = false) (hsk : cx.cfg.common.skipCopySameType = false)
+    (hz : cx.cfg.common.useZeroValue = z) (hc : st.useCtor = false) :
+    noLookup c fuel cx mode pp s t path st = ret (genF z (asgNL mode) s t) st ∧
+    ((∃ plan, noLookup c fuel cx mode pp s t path st = .ok (plan, st)) ↔ Convertible z s t) := by
+  have hsim := noLookup_fragment c cx st z s t path fuel mode pp hs ht hfuel hext hms hu hsk hz hc
+  refine ⟨hsim, ?_⟩
+  rw [hsim, ← genF_ok_iff z (asgNL mode) s t]
+  constructor
+  · rintro ⟨plan, h⟩
+    cases hg : genF z (asgNL mode) s t with
+    | ok q => exact ⟨q, rfl⟩
+    | error d => rw [hg] at h; cases h
+  · rintro ⟨q, hq⟩; exact ⟨q, by rw [hq]; rfl⟩
+
+open Gv.Spec in
+/-- **C03 for a whole converter with one declared method on F-types** (e.g. `Convert([]*int) []*int`): `generate` – setup,
+validation, the dirty loop, `buildMethod` – succeeds iff the documented rules cover the signature; on success the method table
+is the declared method with body `return <reference plan>` and nothing else (no sub-method is generated), and – alias-free
+kinds, no array directly inside a list – the whole program passes `PlanCheck.checkProg`, so `C02_composite` applies to it for
+every value; otherwise the run fails with a type-mismatch diagnostic and emits nothing. -/
+theorem C03_iff_unnamed_fragment_generate (c : Converter) (d : Declared) (z : Bool) (fuel rounds : Nat)
+    (hup : d.updateTarget = false) (hraw : d.cfg.rawFieldSettings = []) (hctor : d.cfg.constructor = none)
+    (hs : inF d.source = true) (ht : inF d.target = true)
+    (hfuel : 2 * (tySize d.source + tySize d.target) < fuel) (hrounds : 2 ≤ rounds)
+    (hext : c.extend = [])
+    (hu : d.cfg.common.useUnderlying = false) (hsk : d.cfg.common.skipCopySameType = false)
+    (hz : d.cfg.common.useZeroValue = z) :
+    ((∃ ms, generate c [d] fuel rounds = .ok ms) ↔ Convertible z d.source d.target) ∧
+    (∀ ms, generate c [d] fuel rounds = .ok ms →
+        ∃ plan, genF z false d.source d.target = .ok plan ∧
+          ms = [{ declaredMethod d with dirty := false, body := some (.convert plan) }] ∧
+          (aliasFree d.source = true → aliasFree d.target = true → arrayElemFree false d.source = true →
+            PlanCheck.checkProg { conv := c, methods := ms } = true)) ∧
+    (¬ Convertible z d.source d.target →
+        ∃ e, generate c [d] fuel rounds = .error e ∧ (e = .typeMismatch ∨ e = .typeMismatchPtr)) := by
+  rw [generate_single c d z fuel rounds hup hraw hctor hs ht hfuel hrounds hext hu hsk hz,
+    ← genF_ok_iff z false d.source d.target]
+  refine ⟨?_, ?_, ?_⟩
+  · constructor
+    · rintro ⟨ms, h⟩
+      cases hg : genF z false d.source d.target with
+      | ok q => exact ⟨q, rfl⟩
+      | error e => rw [hg] at h; cases h
+    · rintro ⟨q, hq⟩; exact ⟨_, by rw [hq]⟩
+  · intro ms h
+    cases hg : genF z false d.source d.target with
+    | error e => rw [hg] at h; cases h
+    | ok q =>
+      rw [hg] at h
+      simp only [Except.ok.injEq] at h
+      refine ⟨q, rfl, h.symm, fun ha1 ha2 ha3 => ?_⟩
+      subst h
+      simp [PlanCheck.checkProg, declaredMethod, genF_checked _ z false d.source d.target q hg hs ht ha1 ha2 ha3]
+  · intro hn
+    cases hg : genF z false d.source d.target with
+    | ok q => exact absurd ⟨q, hg⟩ hn
+    | error e => exact ⟨e, rfl, genF_error z false d.source d.target e hg⟩
+
+/-! non-vacuity: a concrete converter, a state whose method table holds a declared method (on named types), and the pairs
+`map[string][]*int → map[string][]*int` (accepted, with its plan) and `… → map[string][]*int64` (rejected) -/
+
+def exConverter : Converter := { env := [], common := {}, outputPkg := [], customs := [], extend := [], orc := {} }
+def exDeclared : GenMethod :=
+  { name := "Convert".toList, source := .named "pkg.In".toList, target := .named "pkg.Out".toList,
+    args := [{ name := "source".toList, use := .source, ty := .named "pkg.In".toList }], contexts := [], returnError := false,
+    updateTarget := false, explicit := true, dirty := true, originPath := [], originName := "Convert".toList, cfg := { common := {} } }
+def exState : GState := { methods := [exDeclared], fileNames := [], seen := ["pkg.In".toList], useCtor := false }
+def exCtx : Ctx :=
+  { self := 0, cfg := { common := {} }, confSource := some (.named "pkg.In".toList), confTarget := .named "pkg.Out".toList,
+    updateTarget := false, fieldsTarget := .named "pkg.Out".toList, available := [], ctxArgs := [],
+    sigSource := .named "pkg.In".toList, sigTarget := .named "pkg.Out".toList }
+def exS : Ty := .map (.basic .string) (.slice (.ptr (.basic .int)))
+def exT : Ty := .map (.basic .string) (.slice (.ptr (.basic .int)))
+def exT' : Ty := .map (.basic .string) (.slice (.ptr (.basic .int64)))
+
+open Gv.Spec in
+/-- the hypotheses hold for the example, the pair is convertible, so the theorem yields success with the unchanged state and a
+checked plan -/
+example : ∃ plan, conv exConverter 100 exCtx .build false exS exT [] exState = .ok (plan, exState) ∧
+    ∀ p : Eval.Program, PlanCheck.checkTy p plan exS exT = true := by
+  have h := C03_iff_unnamed_fragment exConverter exCtx exState false exS exT [] 100 .build false
+    (by decide) (by decide) (by decide) rfl (by decide) rfl rfl rfl rfl
+  have hc : Convertible false exS exT := .map (.basic rfl) (.slice (.ptrPtr (.basic rfl)))
+  obtain ⟨plan, st', hok⟩ := h.1.mpr hc
+  obtain ⟨rfl, _, hchk⟩ := h.2.2.1 plan st' hok
+  exact ⟨plan, hok, hchk (by decide) (by decide) (by decide)⟩
+
+open Gv.Spec in
+/-- … and the rejected pair fails with a type mismatch -/
+example : ∃ d, conv exConverter 100 exCtx .build false exS exT' [] exState = .error d ∧ (d = .typeMismatch ∨ d = .typeMismatchPtr) := by
+  have h := C03_iff_unnamed_fragment exConverter exCtx exState false exS exT' [] 100 .build false
+    (by decide) (by decide) (by decide) rfl (by decide) rfl rfl rfl rfl
+  apply h.2.2.2
+  rw [h.2.1]
+  simp [convertibleB, exS, exT', Kind.canon]
+
+open Gv.Spec in
+/-- `*int → int` flips with the flag: rejected without `useZeroValueOnPointerInconsistency`, accepted with it -/
+example : ¬ Convertible false (.ptr (.basic .int)) (.basic .int) ∧ Convertible true (.ptr (.basic .int)) (.basic .int) := by
+  refine ⟨?_, .srcPtr rfl rfl (.basic rfl)⟩
+  rw [← convertibleB_iff _ _ _ (by decide) (by decide)]
+  simp [convertibleB]
+
+/-- a whole converter: `Convert(map[string][]*int) map[string][]*int` is generated, with `map[string][]*int64` it is rejected -/
+def exDecl (t : Ty) : Declared :=
+  { name := "Convert".toList, source := exS, target := t, args := [{ name := "source".toList, use := .source, ty := exS }],
+    contexts := [], returnError := false, updateTarget := false, cfg := { common := {} } }
+
+open Gv.Spec in
+example : (∃ ms, generate exConverter [exDecl exT] = .ok ms ∧ PlanCheck.checkProg { conv := exConverter, methods := ms } = true) ∧
+    (∃ e, generate exConverter [exDecl exT'] = .error e) := by
+  have h := C03_iff_unnamed_fragment_generate exConverter (exDecl exT) false 200 64 rfl rfl rfl (by decide) (by decide) (by decide)
+    (by decide) rfl rfl rfl rfl
+  have h' := C03_iff_unnamed_fragment_generate exConverter (exDecl exT') false 200 64 rfl rfl rfl (by decide) (by decide) (by decide)
+    (by decide) rfl rfl rfl rfl
+  constructor
+  · obtain ⟨ms, hms⟩ := h.1.mpr (.map (.basic rfl) (.slice (.ptrPtr (.basic rfl))))
+    obtain ⟨plan, _, _, hchk⟩ := h.2.1 ms hms
+    exact ⟨ms, hms, hchk (by decide) (by decide) (by decide)⟩
+  · have hn : ¬ Convertible false (exDecl exT').source (exDecl exT').target := by
+      rw [← convertibleB_iff _ _ _ (by decide) (by decide)]
+      simp [convertibleB, exDecl, exS, exT', Kind.canon]
+    obtain ⟨e, he, _⟩ := h'.2.2 hn
+    exact ⟨e, he⟩
 
 end Gv.Props.C03
